@@ -1,8 +1,5 @@
 (* C29: the three compatibility checks of the code equal the specification's algorithms, for all types. *)
-From ApolloVerif Require Import Base.Chars Ast.TypeRef Ast.TypeRefProofs Exec.Compat.
-
-Lemma name_eqb_refl a : tref_name_eqb a a = true.
-Proof. now apply tref_name_eqb_eq. Qed.
+From ApolloVerif Require Import Base.Chars Ast.Ast Ast.TypeRef Exec.Compat.
 
 Ltac side :=
   match goal with
@@ -46,9 +43,9 @@ Theorem assignable_sound v : forall l,
 Proof.
   induction v as [a|a|i IH|i IH]; intros [b|b|j|j]; cbn [compat_is_assignable_to sty_of];
     try discriminate; intros H.
-  - apply tref_name_eqb_eq in H as ->. apply atc_named.
-  - apply tref_name_eqb_eq in H as ->. apply ATC_2; [side|apply atc_named].
-  - apply tref_name_eqb_eq in H as ->. apply ATC_1, atc_named.
+  - apply streq_eq in H as ->. apply atc_named.
+  - apply streq_eq in H as ->. apply ATC_2; [side|apply atc_named].
+  - apply streq_eq in H as ->. apply ATC_1, atc_named.
   - apply ATC_3, IH, H.
   - apply ATC_2; [side|]. apply ATC_3, IH, H.
   - apply ATC_1, ATC_3, IH, H.
@@ -58,14 +55,14 @@ Theorem assignable_complete v : forall l,
   AreTypesCompatible (sty_of v) (sty_of l) -> compat_is_assignable_to v l = true.
 Proof.
   induction v as [a|a|i IH|i IH]; intros [b|b|j|j]; cbn [compat_is_assignable_to sty_of]; intros H.
-  - apply atc_inv_named_loc in H; [|side]. injection H as ->. apply name_eqb_refl.
+  - apply atc_inv_named_loc in H; [|side]. injection H as ->. apply streq_refl.
   - apply atc_inv_nonnull_loc in H as (v' & E & _). discriminate.
   - apply atc_inv_list_loc in H as (v' & E & _); [discriminate|side].
   - apply atc_inv_nonnull_loc in H as (v' & E & _). discriminate.
   - apply atc_inv_nonnull_var in H; [|side]. apply atc_inv_named_loc in H; [|side].
-    injection H as ->. apply name_eqb_refl.
+    injection H as ->. apply streq_refl.
   - apply atc_inv_nonnull_loc in H as (v' & [= <-] & H). apply atc_inv_named_loc in H; [|side].
-    injection H as ->. apply name_eqb_refl.
+    injection H as ->. apply streq_refl.
   - apply atc_inv_nonnull_var in H; [|side]. apply atc_inv_list_loc in H as (v' & E & _); [discriminate|side].
   - apply atc_inv_nonnull_loc in H as (v' & [= <-] & H).
     apply atc_inv_list_loc in H as (v' & E & _); [discriminate|side].
@@ -153,8 +150,8 @@ Qed.
 Theorem usage_old_refuted :
   exists d u, compat_usage_allowed_old d u = true /\ ~ IsVariableUsageAllowed d u.
 Proof.
-  exists {| cv_ty := TrNamed [73; 110; 116]; cv_default := Some CvNull |},
-         {| cu_ty := TrNonNullNamed [73; 110; 116]; cu_default := None |}.
+  exists {| cv_ty := TNamed [73; 110; 116]; cv_default := Some CvNull |},
+         {| cu_ty := TNonNullNamed [73; 110; 116]; cu_default := None |}.
   split; [vm_compute; reflexivity|]. intros H. apply usage_iff in H. vm_compute in H. discriminate.
 Qed.
 
@@ -174,10 +171,10 @@ Section Impl.
   Let Sub (implemented field : str) : Prop := sub implemented field = true.
   Notation IVI := (IsValidImplementationFieldType Sub).
 
-  Lemma ivi_named a b : tref_name_eqb a b || sub a b = true -> IVI (SNamed b) (SNamed a).
+  Lemma ivi_named a b : streq a b || sub a b = true -> IVI (SNamed b) (SNamed a).
   Proof.
     intros H. apply orb_true_iff in H as [H|H].
-    - apply tref_name_eqb_eq in H as ->. apply IVI_3; try side. reflexivity.
+    - apply streq_eq in H as ->. apply IVI_3; try side. reflexivity.
     - now apply IVI_45.
   Qed.
 
@@ -209,10 +206,10 @@ Section Impl.
   Lemma ivi_inv_list f i : IVI (SList f) (SList i) -> IVI f i.
   Proof. intros H. inversion H; subst; try absurd_side. assumption. Qed.
 
-  Lemma ivi_inv_named b a : IVI (SNamed b) (SNamed a) -> tref_name_eqb a b || sub a b = true.
+  Lemma ivi_inv_named b a : IVI (SNamed b) (SNamed a) -> streq a b || sub a b = true.
   Proof.
     intros H. apply orb_true_iff. inversion H as [| | |f i _ _ E|f i Hs]; subst.
-    - injection E as ->. left. apply name_eqb_refl.
+    - injection E as ->. left. apply streq_refl.
     - right. exact Hs.
   Qed.
 
@@ -244,8 +241,8 @@ End Impl.
 Lemma contains_spec l k : compat_contains l k = true <-> In k l.
 Proof.
   unfold compat_contains. rewrite existsb_exists. split.
-  - intros (x & Hin & He). apply tref_name_eqb_eq in He as ->. exact Hin.
-  - intros Hin. exists k. split; [exact Hin|apply name_eqb_refl].
+  - intros (x & Hin & He). apply streq_eq in He as ->. exact Hin.
+  - intros Hin. exists k. split; [exact Hin|apply streq_refl].
 Qed.
 
 Theorem subtype_iff types a b :
